@@ -128,6 +128,9 @@ var bases = []string{
 	"",
 	"http://osm.example.test:8080/mirror/v1/api/0.6",
 	"https://dev.example.test/api/0.6",
+	// percent-escapes in the configured base: it must reach the wire as given
+	// (and must never be used as a format string)
+	"http://osm.example.test/osm%20mirror/a%2Fb/api/0.6",
 }
 
 type boundsVal struct{ MinLon, MinLat, MaxLon, MaxLat float64 }
@@ -188,7 +191,7 @@ func expectURL(e *endpoint, c *Case) wantURL {
 	}
 	p := strings.ReplaceAll(e.Path, "{id}", strconv.FormatInt(c.ID, 10))
 	p = strings.ReplaceAll(p, "{version}", strconv.Itoa(c.Version))
-	w := wantURL{Scheme: bu.Scheme, Host: bu.Host, Path: bu.Path + p, Params: map[string][]string{}}
+	w := wantURL{Scheme: bu.Scheme, Host: bu.Host, Path: bu.EscapedPath() + p, Params: map[string][]string{}}
 	if e.Query != "" {
 		kv := strings.SplitN(e.Query, "=", 2)
 		switch kv[1] {
